@@ -68,6 +68,9 @@ Definition pqeany : parser qeany :=
   else if t =? 2 then u <- pwunit ;; w <- plist pQ ;; v <- plist pQ ;;
                       pret (QEspec (Spectrum.mkS w v u Spectrum.VNone))
   else pfail.
+(* ZeroDivisionError travels as error code 7 *)
+Definition eoutcome {A} (e : A -> list Z) (o : outcome A) : list Z :=
+  match o with Returned a => 0 :: e a | Raised k => [1; errcode k] | RaisedZeroDivision => [1; 7] end.
 Definition collect_any_args := (imgrep QcS * list Qc * Spectrum.wunit * qeany)%type.
 Definition pcollect_any : parser collect_any_args :=
   i <- pimg ;; w <- plist pQ ;; u <- pwunit ;; q <- pqeany ;; pret (i, w, u, q).
@@ -79,10 +82,9 @@ Definition pbayer_any : parser bayer_any_args :=
   os <- pZ ;; fl <- pbool ;; pret (i, w, u, qr, qg, qb, pat, os, fl).
 Definition run_bayer_any (a : bayer_any_args) : list Z :=
   let '(i, w, u, qr, qg, qb, pat, os, fl) := a in
-  if (os <? 1) || (Z.of_nat (length pat) <? 1) then emalformed else
-  if fl : bool then eresult earrQ (collect_charge_bayer_any i w u qr qg qb pat os)
-  else eresult (fun '(r, g, b) => earrQ r ++ earrQ g ++ earrQ b)
-               (collect_charge_bayer_channels_any i w u qr qg qb pat os).
+  if fl : bool then eoutcome earrQ (collect_charge_bayer_entry i w u qr qg qb pat os)
+  else eoutcome (fun '(r, g, b) => earrQ r ++ earrQ g ++ earrQ b)
+                (collect_charge_bayer_channels_entry i w u qr qg qb pat os).
 
 (* one call of a history: tag = the op code of the single call (1, 2, 3, 8, 9); parsed and answered at once *)
 Definition pcall : parser (list Z) :=
